@@ -43,6 +43,7 @@ def run(ctx):
     # update-time behaviour through the public API (specific operator) and '*' behaviour at resolution
     step = 1 if ctx.tier == "thorough" else 7
     n_upd = 0
+    q_long = quantizer.Quantizer(fr.model_bytes())   # ONE object whose '*' rule is replaced again and again (verdicts must not be remembered)
     for i, ((a, o, d), r) in enumerate(zip(triples, outs)):
         if r[0] == "ctor" or (i % step and r != ("ok", True)):
             continue
@@ -70,6 +71,13 @@ def run(ctx):
         selected = str(getattr(alg, "value", alg)) != "no_quantize"
         if selected != (r == ("ok", True)):
             ctx.fail("'*' rule selected for an unsupported pair (or skipped for a supported one)", {"alg": a, "op": o, "cfg": d, "selected": selected}, "star-vs-check")
+        # ... and the same on a long-lived object whose '*' rule under this regex has been replaced many times and resolved in between
+        q_long.update_quantization_recipe(".*", "*", cfg, a)
+        alg_l, _ = q_long._recipe_manager.get_quantization_configs(o, "x;")
+        sel_l = str(getattr(alg_l, "value", alg_l)) != "no_quantize"
+        if sel_l != (r == ("ok", True)):
+            ctx.fail("'*' rule selected for an unsupported pair (or skipped for a supported one) on an object whose '*' rule was replaced after use",
+                     {"alg": a, "op": o, "cfg": d, "selected": sel_l, "history": "the same Quantizer received and resolved other '*' rules before"}, "star-vs-check-after-replacement")
         ctx.tag("accepted" if upd else "refused")
     ctx.extra["update_and_star_checked"] = n_upd
     runtime_half(ctx, drv, accepted)
